@@ -238,7 +238,9 @@ def replay(obj):
         n, bad = audit_policy_peers_e2e(Coverage('replay'), lambda *a: res.append(a), only=f['sig']['where'])
         print('policy %r: %s' % (f['sig']['where'], 'a failure-level finding is reported: %r' % (res[0][3],) if bad else 'no failure-level finding'))
         return 1 if bad else 0
-    return 0
+    import sys
+    from common import rerun_for_signature
+    return rerun_for_signature(sys.modules[__name__], f)
 
 TECHNIQUE = 'Lean 4 kernel proof (decide +kernel) over tables regenerated from the source by a translator on every run'
 LEVEL_TEXT = ('Every clause is a finite statement about the rating databases, built-in policies and probe/attack tables; the translator '
